@@ -1534,8 +1534,15 @@ class Interp:
     def call_function(self, f: FuncVal, args, kwargs):
         if f.dispatch:
             idx = 1 if (f.cls is not None and f.kind != "static") else 0
+            disp_arg = None
             if len(args) > idx:
-                for tn in self.dispatch_type_names(args[idx]):
+                disp_arg = args[idx]
+            else:
+                params = [p.arg for p in f.node.args.args]
+                if len(params) > idx and params[idx] in kwargs:
+                    disp_arg = kwargs[params[idx]]
+            if disp_arg is not None:
+                for tn in self.dispatch_type_names(disp_arg):
                     if tn in f.dispatch:
                         f = f.dispatch[tn]
                         break
